@@ -131,3 +131,81 @@ Example ex_abasis_cap :
   /\ x_reply (run (Some 0)) =
      Some (mk_reply false 3 false [] [RDNAME (bs "ex.t.") 0 (bs "d.u."); RCNAME (bs "h.ex.t.") 0 (bs "h.d.u.")]).
 Proof. vm_compute. repeat split; reflexivity. Qed.
+
+(* ---------------- synthesis is due (round 6) ----------------
+   The converse of synth_only_when: behind every gate, with a downstream reply
+   that leaves room and a lookup answered NOERROR with an A record that some
+   compiled prefix does not exclude — wherever it stands in the answer, whatever
+   its owner — the handler synthesises. *)
+Lemma gate_wrap_conv v c q :
+  gates_open c q = true -> q_type q = type_aaaa -> zone_excluded c (lower (q_name q)) = false -> gate v c q = GWrap.
+Proof.
+  unfold gates_open, gate. intros G T Z.
+  destruct (q_nq q =? 1); cbn [negb andb] in *; [|discriminate].
+  destruct (q_class q =? class_in); cbn [negb andb] in *; [|discriminate].
+  destruct (q_internal q); cbn [negb andb] in *; [discriminate|].
+  destruct (q_rd q); cbn [negb andb] in *; [|discriminate].
+  destruct (q_cd q); cbn [negb andb] in *; [discriminate|].
+  rewrite G. cbn [negb]. rewrite T. change (type_aaaa =? type_aaaa) with true. change (type_aaaa =? type_ptr) with false.
+  cbn [orb negb]. rewrite Z. reflexivity.
+Qed.
+
+Lemma no_usable_aaaa c ans :
+  forallb (fun r => negb (is_aaaa r) || aaaa_excluded c r) ans = true ->
+  filter (fun r => is_aaaa r && negb (aaaa_excluded c r)) ans = [].
+Proof.
+  intros F. rewrite forallb_forall in F. induction ans as [|x l IH]; [reflexivity|]. cbn [filter].
+  pose proof (F x (or_introl eq_refl)) as Hx.
+  assert (is_aaaa x && negb (aaaa_excluded c x) = false) as ->.
+  { destruct (is_aaaa x), (aaaa_excluded c x); cbn in *; congruence. }
+  apply IH. intros y Hy. apply F. right. exact Hy.
+Qed.
+
+Lemma write_msg_conv v c m mark work al cut :
+  down_allows c m mark work = true ->
+  write_msg v c m mark work al cut = synthesise v c (filtered_msg c m) (filtered_same c m) al cut.
+Proof.
+  unfold down_allows, write_msg, filtered_msg, filtered_same. intros D.
+  repeat (apply andb_prop in D as [D ?]).
+  repeat match goal with H : negb _ = true |- _ => apply negb_true_iff in H end.
+  repeat match goal with H : (_ || _) = false |- _ => apply orb_false_iff in H as [? ?] end.
+  repeat match goal with H : ?x = false |- _ => rewrite H end. cbn [orb].
+  destruct (m_rcode m =? 0) eqn:E0; [|reflexivity].
+  match goal with H : _ || _ = true |- _ => cbn [negb orb] in H; rename H into F end.
+  unfold filter_aaaa. rewrite (no_usable_aaaa c _ F). cbn [length Nat.ltb Nat.leb andb]. rewrite andb_false_r. reflexivity.
+Qed.
+
+Lemma synthesis_when_due_lem v cf q m mark work ar cut p o ta ip v4 :
+  gates_open (compile cf) q = true -> q_type q = type_aaaa ->
+  zone_excluded (compile cf) (lower (q_name q)) = false ->
+  down_allows (compile cf) m mark work = true ->
+  m_rcode ar = 0 ->
+  In p (c_prefixes (compile cf)) -> In (RA o ta ip) (m_answer ar) -> to4 ip = Some v4 ->
+  should_exclude_a (compile cf) v4 p = false ->
+  x_path (serve v cf q (Some (m, mark)) work (QResp ar) cut) = PSynth
+  /\ exists r t, x_reply (serve v cf q (Some (m, mark)) work (QResp ar) cut) = Some r
+       /\ In (RAAAA o t (embed (cp_net p) v4)) (r_answer r).
+Proof.
+  intros G T Z D R0 Hp Ha T4 X.
+  unfold serve. rewrite (gate_wrap_conv v _ _ G T Z). rewrite (write_msg_conv v _ _ _ _ _ _ D).
+  unfold synthesise. rewrite R0. cbn [N.eqb negb orb].
+  assert (In (RA o ta ip) (filter is_a (m_answer ar))) as Ia by (apply filter_In; split; [exact Ha | reflexivity]).
+  destruct (filter is_a (m_answer ar)) as [|a0 l0] eqn:EA; [destruct Ia|]. cbn [length Nat.eqb]. rewrite <- EA in *.
+  set (ttl := synth_ttl v (m_ns (filtered_msg (compile cf) m)) (filter is_a (m_answer ar)) cut).
+  assert (In (RAAAA o ttl (embed (cp_net p) v4)) (synth_rrs (compile cf) ttl (filter is_a (m_answer ar)))) as Is.
+  { apply synth_rrs_in. exists p, o, ta, ip, v4. auto. }
+  destruct (synth_rrs (compile cf) ttl (filter is_a (m_answer ar))) as [|s0 sl] eqn:ES; [destruct Is|].
+  cbn [length Nat.eqb x_path x_reply]. split; [reflexivity|].
+  eexists _, ttl. split; [reflexivity|]. cbn [r_answer]. apply in_app_iff. right. exact Is.
+Qed.
+
+(* non-vacuity: the two hops of the chain swapped and the address first — still
+   synthesised, owner c1.u., chain relayed in the order it came *)
+Example ex_out_of_order :
+  let a := mk_msg false 1 0 false None
+             [RA (bs "c1.u.") 120 [192; 0; 9; 1]; RCNAME (bs "c0.u.") 300 (bs "c1.u."); RCNAME (bs "h.ex.t.") 300 (bs "c0.u.")] [] in
+  let x := serve cur (mk_config [Some wkp_net] [] [] None None) ex_ab_q (Some (ex_ab_down, 0)) false (QResp a) None in
+  x_path x = PSynth
+  /\ x_reply x = Some (mk_reply false 0 false []
+       [RCNAME (bs "c0.u.") 1 (bs "c1.u."); RCNAME (bs "h.ex.t.") 1 (bs "c0.u."); RAAAA (bs "c1.u.") 1 (embed wkp_net [192; 0; 9; 1])]).
+Proof. vm_compute. split; reflexivity. Qed.
